@@ -907,8 +907,10 @@ func ConcatAll[T any]() func(Observable[Observable[T]]) Observable[T] {
 								NewObserverWithContext(
 									destination.NextWithContext,
 									func(ctx context.Context, err error) {
-										subscriptions.Unsubscribe()
+										// Deliver the error first: Unsubscribe re-raises the panics
+										// of the teardowns it runs.
 										destination.ErrorWithContext(ctx, err)
+										subscriptions.Unsubscribe()
 									},
 									func(ctx context.Context) {},
 								),
@@ -920,8 +922,8 @@ func ConcatAll[T any]() func(Observable[Observable[T]]) Observable[T] {
 							sub.Wait()
 						},
 						func(ctx context.Context, err error) {
-							subscriptions.Unsubscribe()
 							destination.ErrorWithContext(ctx, err)
+							subscriptions.Unsubscribe()
 						},
 						destination.CompleteWithContext,
 					),
